@@ -29,13 +29,17 @@ ID = "C11"
 RULE = ("product explorer over configurations x iteration horizons: a case is a trajectory group (member of the "
         "explicit non-negative count family, holder dense/sparse, rank, starting guess, algorithm); inside, every "
         "option set of the group's slice of the algorithm's option lattice is one state sequence: the real cp_apr "
-        "is re-run with maxiters = 1..K from the same guess under a virtual clock.  The base option set is run in "
-        "every group, the complete lattice in the designated 'full' groups, and a rotating slice elsewhere (the "
-        "rotation is chosen so that every lattice point occurs in many groups).  A run whose sweep count, taken "
+        "is re-run with maxiters = 1..K from the same guess under a virtual clock (stoptime = 0 ticks: horizons 1 "
+        "and K only).  The base option set is run in every group, the complete lattice in the designated 'full' "
+        "groups (split into 4 interleaved cases), and a rotating slice elsewhere (one running index per algorithm "
+        "and holder kind, stride coprime to the lattice size, so that every lattice point occurs in several groups "
+        "of either tier).  A run whose sweep count, taken "
         "from the recorded redistribute calls, is smaller than maxiters must be reproduced bit for bit by every "
         "longer horizon.  pqnr runs that abort with the recorded internal assertion are counted and triaged as a "
-        "known finding; all invariants are decided on the pqnr runs that return.  Non-trivial: the run returned, "
-        "reported and recomputed log-likelihood are finite, and the likelihood strictly improved on the guess.")
+        "known finding; all invariants are decided on the pqnr runs that return (counter runs_returned:pqnr), and "
+        "finalize() turns a tier in which fewer than 1000 runs of an algorithm returned with a finite objective, or "
+        "in which a listed data-dependent side was never reached, into a 'vacuous' violation.  Non-trivial: the run "
+        "returned, reported and recomputed log-likelihood are finite, and the likelihood strictly improved on the guess.")
 ASSUMPTIONS = [
     "reference Kruskal evaluation (einsum on the explicit factors) and the entrywise Poisson log-likelihood "
     "sum_{x!=0} x log m - sum m in mc/props/C11.py / mc/refmodel.py are correct; log-likelihoods are compared with "
@@ -64,7 +68,7 @@ BOUNDS = {
                 "last mode added); holders additionally int64 tensor and sptensor stored in reverse order (with the positive, "
                 "zero-row and first random guess); guesses "
                 "additionally all-zero last row of the last mode, the all-ones guess and init='random' under seeds "
-                "{0,1} for every rank; K = 5 horizons; base + 7 "
+                "{0,1} for every rank; K = 5 horizons; base + 5 "
                 "rotating lattice points per group; the complete lattice on shapes (2,3),(2,3,2) x members {generic, "
                 "rank-2 product, empty slice} x rank 2 x guesses {positive, zero row} x {tensor, sptensor}; every "
                 "pdnr group additionally runs the mu0 = 0 probe",
@@ -232,11 +236,15 @@ def lattice(alg, sparse):
     return out
 
 
-def select_cfgs(alg, sparse, mode, gi):
-    """mode: 'full' or the number of rotating lattice points beside the base point."""
+FULL_PARTS = 4          # a 'full' group is split into this many cases (every 4th lattice point each)
+
+
+def select_cfgs(alg, sparse, mode, gi, part=None):
+    """mode: 'full' (optionally one of FULL_PARTS interleaved slices) or the number of rotating lattice points
+    beside the base point."""
     lat = lattice(alg, sparse)
     if mode == "full":
-        return lat
+        return lat if part is None else lat[part::FULL_PARTS]
     n = len(lat)
     # stride coprime to every lattice size (48, 96, 192): consecutive groups walk through the whole lattice
     picks = [0] + [(1 + (gi * mode + j) * 37) % n for j in range(mode)]
@@ -254,7 +262,7 @@ FULL_GROUPS = {
     "thorough": {"shapes": [(2, 3), (2, 3, 2)], "fams": [("generic", None), ("lowrank", 2), ("emptyslice", None)],
                  "ranks": [2], "guesses": ["pos", "zrow0"], "holders": ["tensor", "sptensor"]},
 }
-ROTATING = {"quick": 3, "thorough": 7}
+ROTATING = {"quick": 3, "thorough": 5}
 
 
 def _is_full(tier, seed, shape, d, holder, R, guess):
@@ -265,7 +273,7 @@ def _is_full(tier, seed, shape, d, holder, R, guess):
 
 
 def gen_cases(tier, seed):
-    gi = 0
+    counters = {}       # (algorithm, sparse holder) -> running group index: the rotation walks each lattice in turn
     for shape in SHAPES:
         for d in members(shape, tier, seed):
             for R in (1, 2, 3):
@@ -276,14 +284,19 @@ def gen_cases(tier, seed):
                         if holder in ("tensor_int", "sptensor_rev") and guess not in ("pos", "zrow0", "rand0"):
                             continue
                         for alg in ALGS:
+                            gi = counters.get((alg, is_sparse(holder)), 0)
+                            counters[(alg, is_sparse(holder))] = gi + 1
                             full = _is_full(tier, seed, shape, d, holder, R, guess)
                             c = {"check": "apr", "data": d, "holder": holder, "rank": R, "guess": guess,
                                  "gseed": seed, "alg": alg, "cfgs": "full" if full else ROTATING[tier], "gi": gi,
                                  "K": KMAX[tier]}
+                            if full:
+                                for part in range(1, FULL_PARTS):
+                                    yield dict(c, part=part)
+                                c["part"] = 0
                             if alg == "pdnr" and (tier == "thorough" or R >= 2):
                                 c["probe_mu0"] = True      # undamped Hessian: reaches both fall-back directions
                             yield c
-                            gi += 1
 
 
 # ---------------------------------------------------------------------------
@@ -386,7 +399,7 @@ def _run_apr(case, ctx):
     if "cfg" in case:
         cfgs = [case["cfg"]]
     else:
-        cfgs = select_cfgs(alg, sparse, case["cfgs"], case["gi"])
+        cfgs = select_cfgs(alg, sparse, case["cfgs"], case["gi"], case.get("part"))
         if case.get("probe_mu0"):
             cfgs = cfgs + [dict(BASE, precompinds=True, inexact=case["gi"] % 2 == 0, mu0=0.0)]
     w0, f0 = guess_parts(shape, R, gkind, case.get("gseed", 0))
@@ -541,3 +554,31 @@ def _run_apr(case, ctx):
             ctx.outcome([wts, fms, objf, kv, sweeps])
     if group_nontrivial:
         ctx.nontriv()
+
+
+# ---------------------------------------------------------------------------
+# vacuity control: the tier must reach every data-dependent side the invariants speak about, and must decide the
+# invariants on a substantial number of returned runs of every algorithm (pqnr in particular, next to its recorded abort)
+
+NEED_FLAGS = ["converged_before_limit", "stopped_by_time_limit", "mu_inadmissible_zero_adjusted", "objective_minus_inf",
+              "result_has_zero_row", "linesearch_failed_multiplicative_fallback", "pqnr_lbfgs_pair_skipped",
+              "pdnr_singular_hessian_fallback", "pdnr_positive_predicted_reduction_fallback"]
+NEED_RUNS = 1000
+
+
+def finalize(tier, seed, totals):
+    if not totals.cases:
+        return
+    missing = [f for f in NEED_FLAGS if f not in totals.flags]
+    for alg in ALGS:
+        n = totals.counters.get(f"finite_objective_runs:{alg}", 0)
+        if n < NEED_RUNS:
+            missing.append(f"{alg}: only {n} returned runs with a finite objective")
+    for m in missing:
+        totals.failures.append({"check": "apr", "op": "cp_apr", "variant": "vacuity", "symptom": "vacuous",
+                                "case": {"check": "vacuity", "what": m},
+                                "detail": f"'{m}': the bounds no longer decide this side of the property"})
+
+
+def _run_vacuity(case, ctx):
+    ctx.fail("cp_apr", "vacuous", "replay the whole tier instead", variant="vacuity", case=case)
